@@ -112,6 +112,16 @@ func c14ValTok(v interface{}) string {
 		return "s:" + hx(x)
 	case bool:
 		return btok(x)
+	case []interface{}:
+		if len(x) == 2 {
+			if p, ok := x[0].(string); ok {
+				return "L:" + hx(p)
+			}
+		}
+	case map[string]interface{}:
+		if p, ok := x["p"].(string); ok && len(x) == 2 {
+			return "P:" + hx(p)
+		}
 	}
 	return "?:" + hx(fmt.Sprintf("%T|%v", v, v))
 }
@@ -143,6 +153,10 @@ func c14Cell(tok string) (interface{}, bool) {
 		return x, true
 	case strings.HasPrefix(tok, "s:"):
 		return unhx(tok[2:]), true
+	case strings.HasPrefix(tok, "L:"):
+		return []interface{}{unhx(tok[2:]), 7}, true
+	case strings.HasPrefix(tok, "P:"):
+		return map[string]interface{}{"p": unhx(tok[2:]), "n": []interface{}{1}}, true
 	}
 	panic("bad value token " + tok)
 }
@@ -635,7 +649,7 @@ func c14GenKey(rng *rand.Rand) string {
 // numericOnly: the column is an operand of a wrapper expression (`col - lag(col)`); the coercions
 // expr-lang and the custom evaluator apply to bools and strings in arithmetic belong to C06.
 func c14GenVal(rng *rand.Rand, numericOnly bool) string {
-	k := rng.Intn(40)
+	k := rng.Intn(44)
 	if numericOnly && k >= 36 {
 		k = rng.Intn(36)
 	}
@@ -650,8 +664,13 @@ func c14GenVal(rng *rand.Rand, numericOnly bool) string {
 		return "m"
 	case k < 39:
 		return "s:" + hx([]string{"x", "2", "v", ""}[rng.Intn(4)])
-	default:
+	case k < 40:
 		return []string{"t", "f"}[rng.Intn(2)]
+	case k < 42:
+		// a list / a nested map as a column value (values that Go's == cannot compare): equal iff deeply equal
+		return "L:" + hx([]string{"a", "b"}[rng.Intn(2)])
+	default:
+		return "P:" + hx([]string{"a", "b"}[rng.Intn(2)])
 	}
 }
 
